@@ -246,7 +246,7 @@ class Engine:
                 return SSeq(a, len(v.items), k, v.pykind)
             raise OutOfSubset("heterogeneous tuple used as homogeneous sequence")
         if isinstance(v, SObj):
-            k = ek or "int"
+            k = ek or getattr(s, "opaque_seq_kind", "int")
             s.abstracted.add(f"sequence view of an opaque object ({k} elements)")
             ln = uf("seq_len", Obj, I)(v.t)
             p.pc.append(ln >= 0)
@@ -636,6 +636,8 @@ class Engine:
             s.abstracted.add(f".{attr}")
             if attr in s.int_attrs:
                 return SInt(uf("attr_" + attr, Obj, I)(o.t))
+            if attr in getattr(s, "bool_attrs", ()):
+                return SBool(uf("attr_" + attr, Obj, B)(o.t))
             if attr in s.seq_attrs:
                 return s.as_seq(SObj(uf("attr_" + attr, Obj, Obj)(o.t)), p, s.seq_attrs[attr])
             return SObj(uf("attr_" + attr, Obj, Obj)(o.t))
@@ -697,6 +699,11 @@ class Engine:
                     q = s.may_raise("KeyError", z3.BoolVal(idx.v in o.d), p2, f"line{n.lineno}", n.lineno)
                     if q is not None and idx.v in o.d:
                         yield o.d[idx.v], q
+                    continue
+                if isinstance(o, SObj) and isinstance(idx, SInt) and isinstance(n.value, ast.Name) and n.value.id in getattr(s, "int_keyed_mappings", ()):
+                    # an opaque dict with integer keys (declared by the sidecar): table[key] is a deterministic function of (table, key); KeyError not modelled (declared total)
+                    s.abstracted.add(f"{n.value.id}[int key] (opaque int-keyed mapping, total)")
+                    yield SObj(uf("item_int", Obj, I, Obj)(o.t, idx.t)), p2
                     continue
                 if isinstance(o, SObj):
                     if isinstance(idx, SInt) and z3.is_int_value(z3.simplify(idx.t)):
@@ -883,6 +890,37 @@ class Engine:
 
     ev_GeneratorExp = ev_ListComp
 
+    def ev_SetComp(s, n, p):
+        """{elt for x in xs if c} = set([elt for x in xs if c]) (membership only)"""
+        s._in_setcomp = getattr(s, "_in_setcomp", 0) + 1
+        try:
+            results = list(s.comp_summary(n.elt, n.generators, p))
+        finally:
+            s._in_setcomp -= 1
+        for lst, p1 in results:
+            if isinstance(lst, STup):
+                if not lst.items:
+                    yield SSet(None, None), p1
+                    continue
+                lst = s.as_seq(lst, p1)
+            if not isinstance(lst, SSeq) or lst.ek not in ("int", "obj"):
+                raise OutOfSubset("set comprehension over non int/obj elements")
+            x = z3.Const("setx!", sort_of(lst.ek))
+            k = fresh("sk")
+            yield SSet(z3.Lambda([x], z3.Exists([k], z3.And(0 <= k, k < lst.n, z3.Select(lst.arr, k) == x))), lst.ek), p1
+
+    def set_enumeration(s, st, p):
+        """a finite set viewed as a sequence: SOME enumeration (arbitrary order, possibly with repetitions) whose members are exactly the set's members"""
+        if st.member is None:
+            return SSeq(z3.K(I, z3.IntVal(0)), 0, "int", "list")
+        arr, ln = fresh("enum", z3.ArraySort(I, sort_of(st.ek))), fresh("enum_len")
+        x, k = fresh("ex", sort_of(st.ek)), fresh("ek")
+        p.pc.append(ln >= 0)
+        p.pc.append(z3.ForAll([k], z3.Implies(z3.And(0 <= k, k < ln), z3.Select(st.member, z3.Select(arr, k)))))
+        p.pc.append(z3.ForAll([x], z3.Implies(z3.Select(st.member, x), z3.Exists([k], z3.And(0 <= k, k < ln, z3.Select(arr, k) == x)))))
+        s.assumed.add("a finite set has an enumeration (sequence with exactly its members); comprehensions over a set use one, results that are sets do not depend on its order")
+        return SSeq(arr, ln, st.ek, "list")
+
     def iter_seq(s, it, p):
         if isinstance(it, STup):
             kinds = {getattr(i, "kind", None) for i in it.items}
@@ -890,5 +928,7 @@ class Engine:
                 return it  # heterogeneous concrete tuple: supports .items / len only
             return s.as_seq(it, p) if it.items else s.as_seq(it, p)
         if isinstance(it, SSet):
-            raise OutOfSubset("iteration over a set outside a for statement")
+            if getattr(s, "_in_setcomp", 0) <= 0:
+                raise OutOfSubset("iteration over a set outside a for statement / set comprehension")
+            return s.set_enumeration(it, p)
         return s.as_seq(it, p)
